@@ -17,10 +17,10 @@ pub struct Plan {
     pub faults: Vec<(u64, Payload)>, // (fault point index, payload kind)
     pub seed: u64,
 }
-pub const OP_NAMES: [&str; 33] = [
+pub const OP_NAMES: [&str; 35] = [
     "new_conn", "drop_conn", "add", "echo_string", "echo_vec", "sum_ref", "len_ref", "count_str", "sum_slice", "try_div", "bump", "many",
     "call_fn", "call_fnmut", "take_boxed_fn", "call_stored", "drop_stored", "take_leaf", "ping_leaves", "drop_leaves", "make_leaf", "use_leaf",
-    "drop_leaf", "make_fn", "use_fn", "drop_fn", "spawn", "poll", "fire", "cancel", "join", "concat", "spawn_async",
+    "drop_leaf", "make_fn", "use_fn", "drop_fn", "spawn", "poll", "fire", "cancel", "join", "concat", "spawn_async", "deref", "map_reading",
 ];
 pub fn op_code(name: &str) -> i64 {
     OP_NAMES.iter().position(|n| *n == name).map(|x| x as i64).unwrap_or(2)
@@ -128,14 +128,24 @@ pub enum WorldKind {
     Direct,
     Abi,
 }
-fn new_conn(kind: &WorldKind) -> Result<Box<dyn Svc>, String> {
-    let imp: Box<dyn Svc> = Box::new(SvcImpl::new());
+/// `alt`: connect the caller's `dyn Svc` to the entry point of the alternative implementation-side definition
+/// (`iface::alt::Svc`: other method order and numbers, newer version, different layout of one by-reference argument)
+fn new_conn(kind: &WorldKind, alt: bool) -> Result<Box<dyn Svc>, String> {
     match kind {
-        WorldKind::Direct => Ok(imp),
-        WorldKind::Abi => match AbiConnection::<dyn Svc>::from_boxed_trait(imp) {
-            Ok(c) => Ok(Box::new(c)),
-            Err(e) => Err(format!("{:?}", e)),
-        },
+        WorldKind::Direct => Ok(Box::new(SvcImpl::new())),
+        WorldKind::Abi => {
+            let r = if alt {
+                let imp: Box<dyn crate::iface::alt::Svc> = Box::new(SvcImpl::new());
+                unsafe { AbiConnection::<dyn Svc>::from_boxed_trait_for_test(<dyn crate::iface::alt::Svc as savefile_abi::AbiExportable>::ABI_ENTRY, imp) }
+            } else {
+                let imp: Box<dyn Svc> = Box::new(SvcImpl::new());
+                AbiConnection::<dyn Svc>::from_boxed_trait(imp)
+            };
+            match r {
+                Ok(c) => Ok(Box::new(c)),
+                Err(e) => Err(format!("{:?}", e)),
+            }
+        }
     }
 }
 fn new_aconn(kind: &WorldKind) -> Result<Box<dyn ASvc>, String> {
@@ -198,7 +208,7 @@ pub fn run_world(plan: &Plan, kind: WorldKind) -> RunLog {
     let mut tasks: Vec<Task> = Vec::new();
     let mut max_event: u32 = 0;
     // every run starts with one connection
-    match new_conn(&kind) {
+    match new_conn(&kind, false) {
         Ok(c) => conns.push(Some(c)),
         Err(e) => {
             out.ops.push(OpRecord { op: "initial new_conn".into(), events: vec![], drops: vec![], result: format!("error {}", e) });
@@ -231,7 +241,7 @@ pub fn run_world(plan: &Plan, kind: WorldKind) -> RunLog {
                     if conns.len() >= 3 {
                         return "noop".into();
                     }
-                    match new_conn(&kind) {
+                    match new_conn(&kind, a % 2 == 1) {
                         Ok(cn) => {
                             conns.push(Some(cn));
                             "ok".into()
@@ -246,7 +256,7 @@ pub fn run_world(plan: &Plan, kind: WorldKind) -> RunLog {
                     }
                     _ => "noop".into(),
                 },
-                "add" | "join" | "concat" | "echo_string" | "echo_vec" | "sum_ref" | "len_ref" | "count_str" | "sum_slice" | "try_div" | "many" | "call_stored" | "ping_leaves" => {
+                "add" | "deref" | "map_reading" | "join" | "concat" | "echo_string" | "echo_vec" | "sum_ref" | "len_ref" | "count_str" | "sum_slice" | "try_div" | "many" | "call_stored" | "ping_leaves" => {
                     let Some(i) = pick(&conns, a) else { return "noop".into() };
                     let svc: &dyn Svc = &**conns[i].as_ref().unwrap();
                     match name {
@@ -255,6 +265,21 @@ pub fn run_world(plan: &Plan, kind: WorldKind) -> RunLog {
                             let s = gen_string(c, (b.unsigned_abs() % 1100) as usize);
                             let r = svc.echo_string(s.clone());
                             format!("ok {} same={}", digest(r.as_bytes()), r == s)
+                        }
+                        "deref" => {
+                            let x = b as u32;
+                            format!("ok {}", svc.deref(&x))
+                        }
+                        "map_reading" => {
+                            let g = Guard::new("closure(caller-ref-arg)");
+                            let f = |r: Reading| -> Reading {
+                                let g = &g;
+                                fault_point("cbreading.call");
+                                log(format!("cbreading.call {:?} g={}", r, g.kind()));
+                                Reading { value: r.value.wrapping_mul(3), unit: format!("{}!", r.unit) }
+                            };
+                            let out = svc.map_reading(&f, Reading { value: b as u32, unit: gen_string(c, (c.unsigned_abs() % 70) as usize) });
+                            format!("ok {} {}", out.value, digest(out.unit.as_bytes()))
                         }
                         "join" => {
                             let s = gen_string(c, (b.unsigned_abs() % 200) as usize);
@@ -685,7 +710,7 @@ pub fn gen_plan(seed: u64) -> Plan {
     let fam_conn = rng.chance(1, 2);
     let mut pool: Vec<&str> = vec!["add"];
     if fam_data {
-        pool.extend(["echo_string", "echo_string", "join", "join", "concat", "concat", "echo_vec", "sum_ref", "len_ref", "count_str", "sum_slice", "try_div", "bump", "many"]);
+        pool.extend(["deref", "map_reading", "echo_string", "echo_string", "join", "join", "concat", "concat", "echo_vec", "sum_ref", "len_ref", "count_str", "sum_slice", "try_div", "bump", "many"]);
     }
     if fam_cb {
         pool.extend(["call_fn", "call_fn", "call_fnmut"]);
@@ -697,7 +722,7 @@ pub fn gen_plan(seed: u64) -> Plan {
         pool.extend(["spawn", "spawn", "spawn_async", "spawn_async", "poll", "poll", "poll", "poll", "fire", "fire", "cancel"]);
     }
     if fam_conn {
-        pool.extend(["new_conn", "drop_conn"]);
+        pool.extend(["new_conn", "new_conn", "drop_conn"]);
     }
     let sizes: [i64; 18] = [0, 1, 36, 40, 43, 44, 45, 47, 48, 51, 52, 53, 56, 60, 63, 64, 65, 200];
     let mut ops = Vec::new();
